@@ -3,6 +3,7 @@ import JsightVerif.Gen.Facts
 import JsightVerif.Props.C12
 import JsightVerif.Proofs.ScanNest
 import JsightVerif.Proofs.Progress
+import JsightVerif.Proofs.ScanSafe
 /-
   C01 — building is total.  What is *proved* here is the scanner layer: for every file and every
   answer of the schema oracle the scanner never reaches one of its own crash sites that concern
@@ -96,6 +97,32 @@ theorem C01_next_never_hangs (env : Env) (B : Nat) (s : Sc St)
 /-- non-vacuity: the initial scanner state of every file is such a state -/
 example (env : Env) : GoodP env reachAt (4 * env.size + 11) (5 * (4 * env.size + 11)) (Sc.init .stateRoot) :=
   goodP_init env reachAt .stateRoot C12.root_in_reach
+
+/-! ### the scanning stage of a whole project (Proofs/ScanSafe.lean) -/
+
+/-- **C01 (scanning stage), every project**: whatever the root file, the files reachable through
+    INCLUDE, the include graph (cyclic, missing and directory targets included), the ban set and the
+    fuel, the core's scanning loop never reaches a crash site of the scanner and never takes the value of
+    a lexeme that is not a slice of its file: the scanner of the file being read and of every suspended
+    file stays in a state covered by the reach certificate.  The only crash sites of the scanning-stage
+    model left are the three dereferences of `currentDirective` in processParameter / processAnnotation /
+    processBody (that such a lexeme never arrives without a directive is a property of the *order* of
+    lexemes; correspondence-level). -/
+theorem C01_scanning_stage_crash_sites (fsys : FileSys) (n : Nat) (rootName : Bytes) (content : Array UInt8)
+    (lenAt : BodyKind → Nat → LenAnswer) (banned : List Kind) (site : String)
+    (h : Core.run fsys n { current := { name := rootName, env := mkEnv content lenAt, sc := Sc.init .stateRoot }, banned := banned }
+          = .error (.panic site)) :
+    site = "processParameter: currentDirective is nil" ∨ site = "processAnnotation: currentDirective is nil" ∨
+      site = "processBody: currentDirective is nil" := by
+  have := run_safe reachInputs reachAt C12.table_ok C12.root_in_reach fsys n _
+    ⟨good_init (mkEnv content lenAt) reachAt .stateRoot C12.root_in_reach, fun p hp => by cases hp⟩ site h
+  by_cases h1 : site = "processParameter: currentDirective is nil"
+  · exact Or.inl h1
+  · by_cases h2 : site = "processAnnotation: currentDirective is nil"
+    · exact Or.inr (Or.inl h2)
+    · by_cases h3 : site = "processBody: currentDirective is nil"
+      · exact Or.inr (Or.inr h3)
+      · exact absurd ⟨h1, h2, h3⟩ this
 
 /-! ### the build stage never dereferences nil (Model/Build.lean, tied by op `cat`) -/
 
